@@ -151,3 +151,35 @@ def dump(cs):
                                     for n in c.nodes]) for c in cs.get_captions(l)]}
                      for l in cs.get_languages()},
     }
+
+
+# ---------------------------------------------------------------------------------------------
+# a grammar of "difficult" caption text, shared by the text-fidelity checks (C03, C04, C08, C20)
+
+WORDS = ["Hello", "world", "R&D", "AT&T", "x<y", "a>b", "1", "12", "2024", "it's", '"q"', "ok.", "émigré", "—", "100%", "a;b", "#1",
+         "🎉", "𝄞", "野家", "Ünï", "ß", "…", "naïve", "Q&A", "e=mc²", "C:\\dir", "50/", "car", "climb", "über"]
+METAS = ["&", "<", ">", "&amp;", "&lt;", "&gt;", "&quot;", "&apos;", "&nbsp;", "&#39;", "&#x27;", "&#60;", "&copy;", "&amp;lt;", "&amp;amp;",
+         "&gt", "&;", "-->", "->", "--", "]]>", "<![CDATA[", "<!--", "{1}{2}", "{", "}", "\\N", "%s", "{0}", "WEBVTT", "<sami>"]
+TAGS = ["<i>", "</i>", "<b>", "<u>", "<c.yellow>", "<v Bob>", "<v.a.b Bob>", "<00:01.000>", "<br>", "<br/>", "<p>", "</span>", "<span>",
+        "<b-roll>", "<cat>", "<lang en>", "<ruby>", "<rt>", "<i/o>", "<3"]
+
+
+def rich_line(rng, pipe_ok=True):
+    """one line of caption text: 1-5 tokens drawn from words, metacharacter sequences and tag-looking strings,
+    joined by single (sometimes double) spaces; no newline, no leading / trailing blank"""
+    k = rng.choice([1, 1, 2, 3, 5])
+    toks = []
+    for _ in range(k):
+        pool = rng.choice([WORDS, WORDS, METAS, TAGS])
+        t = rng.choice(pool)
+        if not pipe_ok and "|" in t:
+            t = "bar"
+        toks.append(t)
+    out = toks[0]
+    for t in toks[1:]:
+        out += rng.choice([" ", " ", " ", "  "]) + t
+    return out
+
+
+def rich_lines(rng, n, pipe_ok=True):
+    return [rich_line(rng, pipe_ok) for _ in range(n)]
